@@ -49,7 +49,7 @@ Lemma move_objs_no_alloc p bid : forall n m src dst, no_alloc (snd (move_objs p 
 Proof.
   induction n as [|n IH]; intros m src dst; [reflexivity|]. cbn [move_objs].
   match goal with |- context [move_objs p bid ?m2 ?s2 ?d2 n] => specialize (IH m2 s2 d2); destruct (move_objs p bid m2 s2 d2 n) as [m3 evs] end.
-  cbn [snd] in *. apply no_alloc_app; auto. destruct (ntc p); reflexivity.
+  cbn [snd] in *. apply no_alloc_app; auto. destruct (ntc _ p); reflexivity.
 Qed.
 
 Lemma move_fields_no_alloc L : forall pv fl bid m a, no_alloc (snd (fst (move_fields L pv fl bid m a))).
@@ -83,7 +83,7 @@ Qed.
 
 Lemma move_forward_frame L v from to : no_alloc (snd (move_forward L v from to)) /\ same_blocks v (fst (move_forward L v from to)).
 Proof.
-  unfold move_forward. destruct (all_ctriv L && all_dtriv L); [|apply move_forward_nt_frame].
+  unfold move_forward. destruct (all_triv L); [|apply move_forward_nt_frame].
   unfold move_forward_triv. destruct (has_varying L && _); [split; [reflexivity|apply same_blocks_refl]|].
   destruct (has_varying L); split; try reflexivity; repeat split.
 Qed.
@@ -111,7 +111,7 @@ Qed.
 Lemma relocate_fields_no_alloc mv sbid bid L : forall fl ms m d, no_alloc (snd (relocate_fields mv L fl sbid bid ms m d)).
 Proof.
   induction L as [|p L IH]; intros fl ms m d; [reflexivity|]. destruct fl as [|[a c] fl]; [reflexivity|]. cbn [relocate_fields].
-  destruct (ntc p).
+  destruct (ntc _ p).
   - pose proof (relocate_objs_no_alloc mv p sbid bid (Z.to_nat c) ms m a (a + d)) as H1.
     destruct (relocate_objs mv p sbid bid ms m a (a + d) (Z.to_nat c)) as [[ms1 m1] e1]. cbn [snd] in H1.
     specialize (IH fl ms1 m1 d). destruct (relocate_fields mv L fl sbid bid ms1 m1 d) as [[x y] e2]. cbn [snd] in *.
@@ -130,8 +130,8 @@ Qed.
 
 Lemma insert_into_no_alloc mv destr L v bid junk : no_alloc (snd (insert_into mv destr L v bid junk)).
 Proof.
-  unfold insert_into. destruct (all_ctriv L && (negb destr || all_dtriv L)); [reflexivity|].
-  destruct (all_ctriv L).
+  unfold insert_into. destruct (all_ctriv _ L && (negb destr || all_dtriv L)); [reflexivity|].
+  destruct (all_ctriv _ L).
   - destruct (destr && negb (all_dtriv L)).
     + destruct (destruct_range_frame L (Z.to_nat (vsize L v)) v 0) as [H _].
       destruct (destruct_range L v 0 _) as [s2 e2]. cbn [snd] in *. apply no_alloc_app; [reflexivity|]. exact H.
